@@ -6,6 +6,7 @@
 // the interleaving of their single steps. Reference model: an independent
 // prime table + per-iterator (index, limit).
 #include "../sim/harness.h"
+#include "../sim/alloc_seam.h"
 #include <symengine/prime_sieve.h>
 #include <symengine/ntheory.h>
 #include <symengine/ntheory_funcs.h>
@@ -136,12 +137,16 @@ Json gen(uint64_t seed, const std::string &tier)
         o["v"] = false;
         ops.push(o);
     }
+    // swarm: how often an allocation fails inside a sieve operation (0 = never)
+    unsigned fail_share = g.chance(1, 2) ? 0 : 1 + (unsigned)g.below(3);
     for (unsigned i = 0; i < nops; i++) {
         Json o = Json::object();
         switch (g.weighted(w)) {
             case 0:
                 o["op"] = "gen";
                 o["limit"] = pick_limit(g, maxlim, sizes);
+                if (g.below(8) < fail_share)
+                    o["alloc_fail"] = (unsigned)(1 + g.below(g.chance(1, 2) ? 3 : 24));
                 break;
             case 1:
                 o["op"] = "it_new";
@@ -172,6 +177,8 @@ Json gen(uint64_t seed, const std::string &tier)
                         n = 1 + g.below(40);
                 }
                 o["n"] = n;
+                if (g.below(8) < fail_share)
+                    o["alloc_fail"] = (unsigned)(1 + g.below(4));
                 break;
             }
             case 3:
@@ -287,7 +294,28 @@ void exec(Run &run)
             if (limit > REF_MAX / 2)
                 limit = REF_MAX / 2;
             std::vector<unsigned> v;
-            Sieve::generate_primes(v, limit);
+            unsigned af = (unsigned)o.geti("alloc_fail");
+            if (af) {
+                // fault: the af-th allocation inside the call fails, as on a
+                // machine that runs out of memory; the call may throw
+                // std::bad_alloc - what it leaves behind in the shared cache
+                // must still be a valid state for everybody else
+                simalloc::fail_after(af);
+                bool threw = false;
+                try {
+                    Sieve::generate_primes(v, limit);
+                } catch (const std::bad_alloc &) {
+                    threw = true;
+                }
+                simalloc::fail_after(0);
+                if (threw) {
+                    run.fault("allocation_failed_inside_generate_primes");
+                    run.ev("gen " + std::to_string(limit) + " -> bad_alloc");
+                    on_cache_cleared(w); // the model knows nothing about the cache now
+                    continue;
+                }
+            } else
+                Sieve::generate_primes(v, limit);
             size_t want = ref_count_upto(limit);
             uint64_t seg2 = (uint64_t)w.size_k * 1024 * 8 * 2;
             if (limit > 30 + seg2) {
@@ -365,7 +393,23 @@ void exec(Run &run)
                     stale_steps++;
                     s.stale = false;
                 }
-                unsigned v = s.it->next_prime();
+                unsigned v;
+                if (j == 0 && o.geti("alloc_fail")) {
+                    simalloc::fail_after((uint64_t)o.geti("alloc_fail"));
+                    bool threw = false;
+                    try {
+                        v = s.it->next_prime();
+                    } catch (const std::bad_alloc &) {
+                        threw = true;
+                    }
+                    simalloc::fail_after(0);
+                    if (threw) {
+                        // the extension failed before the iterator advanced
+                        run.fault("allocation_failed_inside_next_prime");
+                        continue;
+                    }
+                } else
+                    v = s.it->next_prime();
                 unsigned want = REF[s.index];
                 taken++;
                 last = v;
@@ -518,8 +562,10 @@ void exec(Run &run)
         run.state(st);
     }
     // tear down: iterators die here; restore defaults for the next run
+    simalloc::fail_after(0);
     for (auto &s : w.slots)
         s.it.reset();
+    simalloc::deactivate();
     Sieve::set_clear(true);
     Sieve::set_sieve_size(32);
     Sieve::clear();
